@@ -265,6 +265,7 @@ int main(int argc, char** argv)
     {
         const Entry& en = entries[static_cast<size_t>(c) % entries.size()];
         emit(J().kv("t", "case_begin").kv("case", c).str());
+        arm_case_watchdog(40);
         out().viol_in_case = 0;
         out().soft_in_case = 0;
         out().extra_props = "";
